@@ -12,7 +12,9 @@ code -> spec: real iterfit on seeded data (smooth signal + noise, outliers, zero
               orders 2..4, bkspace / nbkpts / everyn, limits, maxiter), each problem in 4 caller orders, recorded by
               proxies around bspline.fit and djs_reject and validated event by event by TLC (Trace_IterFit).  The
               oracle of those traces is an independent dense weighted least squares (numpy lstsq) on a design matrix
-              from this file's own Cox-de Boor recursion over the knots read back from the returned object.
+              from this file's own Cox-de Boor recursion over the knots in effect at THAT fit (the breakpoints the
+              object carries unmasked when the fit returns): runs in which a fit drops unsupported breakpoints
+              (status -1: data gaps wider than the order) are judged, every later fit on the reduced breakpoint set.
 Python only concretises (ranks -> arrays), abstracts (arrays -> ranks by matching (x, y) pairs) and measures residuals.
 """
 import os
@@ -63,8 +65,9 @@ def basis(knots, k, x):
 class Solver:
     """Weighted least squares on canonical (rank-ordered) data; answers are cached per set of ranks."""
 
-    def __init__(self, X, Y, W, knots, k):
+    def __init__(self, X, Y, W, knots, k, minsv=1e-7):
         self.X, self.Y, self.W = X, Y, W
+        self.minsv = minsv                 # smallest / largest singular value below which a system counts as not determined
         self.knots = np.asarray(knots, dtype=np.float64)
         self.k = k
         self.lo, self.hi = self.knots[k - 1], self.knots[self.knots.size - k]
@@ -83,7 +86,7 @@ class Solver:
             else:
                 sw = np.sqrt(self.W[idx])
                 c, _, rank, sv = np.linalg.lstsq(self.A[idx] * sw[:, None], self.Y[idx] * sw, rcond=None)
-                ok = rank == self.A.shape[1] and sv[-1] > 1e-7 * sv[0]
+                ok = rank == self.A.shape[1] and sv[-1] > self.minsv * sv[0]
                 self.cache[key] = (c, bool(ok))
         return self.cache[key]
 
@@ -105,6 +108,17 @@ class Solver:
         return basis(self.knots, self.k, xe) @ c
 
 
+def in_effect(sset):
+    """abstraction: 1-based indices of the breakpoints of a bspline object that are not masked"""
+    return [int(i) + 1 for i in np.flatnonzero(np.asarray(sset.mask, dtype=bool).ravel())]
+
+
+def knots_of(sset):
+    m = np.asarray(sset.mask, dtype=bool).ravel()
+    b = np.asarray(sset.breakpoints, dtype=np.float64).ravel()
+    return b[m].copy() if m.shape == b.shape else b.copy()
+
+
 # ---------------------------------------------------------------------------------------------
 # recording proxies (installed in pydl.pydlutils.bspline's namespace; nothing under /repo changes)
 class Recorder:
@@ -123,8 +137,11 @@ class Recorder:
 
         def fit(sset, xdata, ydata, invvar, x2=None):
             impl = rec.fit_impl or rec.orig_fit
+            bk0 = in_effect(sset)
             ret = impl(sset, xdata, ydata, invvar, x2=x2)
             rec.on_fit(xdata, ydata, invvar, ret)
+            # the breakpoints in effect when the fit was called / when it returned, and the knots it left
+            rec.events[-1].update(bk0=bk0, bk=in_effect(sset), _kn=knots_of(sset))
             return ret
 
         def rej(data, model, outmask=None, inmask=None, **kw):
@@ -367,6 +384,90 @@ def make_hole_problem(rng, k):
             'maxiter': maxiter, 'outliers': [], 'id': k, 'holes': len(empty), 'ghosts': len(ghost)}
 
 
+def make_gap_problem(rng, k):
+    """Data gaps WIDER than the spline order in breakpoint segments (a detector gap: no x values at all, or a run of
+    non-positively weighted points), optionally with a lone far-off point inside.  Breakpoints inside the gap have no
+    support: a fit drops them (status -1) and is made again on the reduced breakpoint set, possibly more than once, and
+    (lone point rejected later) again after a rejection.  Dense data on both sides keep every fit on the reduced set
+    determined.  Breakpoints by nbkpts / bkspace / an explicit bkpt array / a placed array, not aligned with the gap."""
+    nord = rng.choice([2, 3, 4, 4])
+    wd = rng.choice([0.5, 1.0, 2.0])
+    x0 = rng.choice([0.0, -3.0, 50.0, 1000.0])
+    ngap = rng.choice([1, 1, 1, 2])
+    left = rng.randint(nord + 1, nord + 5)                  # dense segments before the first gap
+    gaps, pos = [], float(left) + rng.choice([0.0, 0.0, 0.3, 0.5, 0.8])
+    for _ in range(ngap):
+        width = rng.randint(nord, nord + 3) + rng.choice([0.0, 0.0, 0.2, 0.5, 0.7])
+        gaps.append((pos, pos + width, rng.choice(['empty', 'empty', 'ghost', 'ghost', 'mixed'])))
+        pos += width + rng.randint(nord + 1, nord + 5) + rng.choice([0.0, 0.4])
+    nseg = int(np.ceil(pos - 1e-9))
+    lone = rng.random() < 0.4                               # positively weighted points deep inside the first gap
+    xs, wz, isl = [], [], []
+    for i in range(nseg):
+        c = rng.randint(7, 12)
+        for q in sorted(rng.uniform(i + 0.03, i + 0.97) for _ in range(c)):
+            g = next((g for g in gaps if g[0] < q < g[1]), None)
+            if g is None:
+                xs.append(q); wz.append(False); isl.append(False)
+            elif g[2] == 'ghost' or (g[2] == 'mixed' and rng.random() < 0.4):
+                xs.append(q); wz.append(True); isl.append(False)
+    xs[0], xs[-1] = 0.0, float(nseg)
+    if lone:
+        # a discordant PAIR (same x within 1e-2 segment, far above / far below the signal) in the middle of the first
+        # gap: it supports the breakpoints there until the rejection removes both - then a LATER fit drops them
+        a, b, _ = gaps[0]
+        q = 0.5 * (a + b) + rng.uniform(-0.2, 0.2)
+        xs += [q, q + 0.01]; wz += [False, False]; isl += [True, True]
+    o = np.argsort(xs)
+    xs = x0 + wd * np.array(xs)[o]
+    wz, isl = np.array(wz)[o], np.array(isl)[o]
+    n = xs.size
+    if len(set(xs.tolist())) != n:
+        return make_gap_problem(rng, k)
+    u = (xs - xs[0]) / (xs[-1] - xs[0])
+    amp = rng.choice([1.0, 20.0])
+    sig = amp * rng.choice([0.01, 0.03, 0.05])
+    if rng.random() < 0.4:
+        cf = [rng.uniform(-3, 3) for _ in range(nord)]
+        f = amp * sum(cf[d] * u ** d for d in range(nord))
+    else:
+        f = amp * (np.sin(rng.uniform(1, 0.5 * nseg) * u + rng.uniform(0, 6)) + rng.uniform(-1, 1) * u)
+    sigma = sig * np.array([rng.choice([0.5, 1.0, 1.0, 2.0]) for _ in range(n)])
+    y = f + np.array([rng.gauss(0, 1) for _ in range(n)]) * sigma
+    if lone:
+        j = np.flatnonzero(isl)
+        sigma[j] = sigma[j[0]]
+        y[j] = f[j] + np.array([1, -1]) * rng.choice([-1, 1]) * rng.uniform(60, 200) * sigma[j]
+    w = 1.0 / sigma ** 2
+    w[wz] = [rng.choice([0.0, 0.0, -1.0]) for _ in range(int(wz.sum()))]
+    ingap = np.array([any(g[0] - 1.2 < (q - x0) / wd < g[1] + 1.2 for g in gaps) for q in xs])
+    ok = ~ingap & ~wz
+    ok[[0, 1, n - 2, n - 1]] = False
+    for _ in range(rng.choice([0, 1, 2, 3])):               # something for the rejection to find, away from the gaps
+        j = rng.randrange(n)
+        if ok[j]:
+            y[j] += rng.choice([-1, 1]) * rng.uniform(15, 40) * sigma[j]
+    for _ in range(rng.choice([0, 0, 1, 2])):               # scattered non-positive weights in dense places
+        j = rng.randrange(n)
+        if ok[j] and w[j - 1] > 0 and w[j + 1] > 0:
+            w[j] = rng.choice([0.0, -1.0])
+    grid = x0 + wd * np.arange(nseg + 1)
+    opt = rng.choice(['nbkpts', 'bkspace', 'bkspace', 'bkpt', 'placed'])
+    if opt == 'nbkpts':
+        kw = {'nbkpts': nseg + 1}
+    elif opt == 'bkspace':
+        kw = {'bkspace': float(wd * rng.choice([0.9995, 0.9995, 0.77]))}
+    elif opt == 'bkpt':
+        kw = {'bkpt': grid.tolist()}
+    else:
+        kw = {'placed': ([float(grid[0] - wd)] if rng.random() < 0.5 else []) + grid.tolist() + [float(grid[-1] + 0.5 * wd)]}
+    lower, upper = rng.choice([(5, 5), (5, 5), (3, 7), (7, 3), (4, 6)])
+    maxiter = rng.choice([0, 1, 2, 3, 10, 10, 10, 10])
+    order = np.lexsort((y, xs))
+    return {'X': xs[order], 'Y': y[order], 'W': w[order], 'nord': nord, 'kw': kw, 'lower': lower, 'upper': upper,
+            'maxiter': maxiter, 'outliers': [], 'id': k, 'gaps': ngap, 'lone': bool(lone)}
+
+
 def make_sparse_problem(rng, k):
     """Sparse / irregular sampling: breakpoint intervals holding exactly 1, 2 or 3 points (an isolated point among
     them) next to dense ones.  Every fit stays determined: sparse intervals are never neighbours, the end intervals
@@ -583,40 +684,59 @@ def build_trace(P, perm, res, ref):
     """Abstract one recorded run into a trace for Trace_IterFit.  Returns (trace, skip reason or None, info)."""
     n = P['X'].size
     ev = res['events']
+    # a fit that DROPS breakpoints (status -1) and is made again is part of the procedure: the run is judged, with the
+    # oracle of every later fit on the breakpoints then in effect.  A fit that fails outright (-2) is C09's.
     if res['exc'] is not None:
-        if 'maskpoints' in res['tb'] or any(e['a'] == 'fit' and e['st'] != 0 for e in ev):
-            return None, 'a fit dropped breakpoints or failed (C09 territory): ' + res['exc'], None
+        if 'maskpoints' in res['tb'] or any(e['a'] == 'fit' and e['st'] not in (0, -1) for e in ev):
+            return None, 'a fit failed outright (C09 territory): ' + res['exc'], None
         return None, None, {'exception': res['exc']}
-    if any(e['a'] == 'fit' and e['st'] != 0 for e in ev):
-        return None, 'a fit reported status != 0 (C09 territory)', None
+    if any(e['a'] == 'fit' and e['st'] not in (0, -1) for e in ev):
+        return None, 'a fit failed outright, status -2 (C09 territory)', None
     sset = res['sset']
-    if not np.all(sset.mask) or sset.nord != P['nord']:
-        return None, 'breakpoints masked in the returned object', None
+    if sset.nord != P['nord']:
+        return None, None, {'exception': 'returned object has order %r' % (sset.nord,)}
+    nbk = int(np.asarray(sset.breakpoints).size)
+    if np.asarray(sset.mask).shape != (nbk,):
+        return None, None, {'exception': 'breakpoint mask of the returned object has shape %r for %d breakpoints' % (
+            np.asarray(sset.mask).shape, nbk)}
     form = res.get('form', 'float64')
     if sset.nord == 1:
         inner = np.asarray(sset.breakpoints, dtype=float)[1:-1]
         if np.isin(P['X'], inner).any():
             return None, 'order 1 with a data point exactly on an interior breakpoint (which interval owns it is C08)', None
     solver = P.setdefault('_solver', {})
-    key = (sset.breakpoints.tobytes(), sset.nord)
-    if key not in solver:
-        solver[key] = Solver(P['X'], P['Y'], P['W'], sset.breakpoints, sset.nord)
-    S = solver[key]
-    last = None
+
+    def solver_on(knots):
+        """the independent solver on the knots a fit left in effect (one per distinct knot set of this data set)"""
+        key = (knots.tobytes(), sset.nord)
+        if key not in solver:
+            # data with wide gaps: the curve INSIDE a gap hangs on barely supported coefficients; the banded normal
+            # equations of the code under test and a dense solve then differ by ~3e-4 microsigma per unit of condition
+            # number (measured), so such a set is compared only up to condition 1e5 (else: not judged, counted as skipped)
+            solver[key] = Solver(P['X'], P['Y'], P['W'], knots, sset.nord, minsv=1e-5 if P.get('gaps') else 1e-7)
+        return solver[key]
+    last = lastbk = lastst = S = None
     events = []
     for e in ev:
         e = dict(e)
+        kn = e.pop('_kn', None)
         if e['a'] == 'fit':
-            last = frozenset(e['mask'])
+            if kn is None or 'bk' not in e:
+                raise core.MachineryError('recorded fit event without its breakpoints')
+            last, lastbk, lastst = frozenset(e['mask']), e['bk'], e['st']
+            S = solver_on(kn) if kn.size >= 2 * sset.nord else None
         elif e['a'] == 'reject':
             if e.get('shape') is False:
                 return None, None, {'exception': 'djs_reject called with arrays of the wrong shape'}
             e.pop('shape', None)
-            z = S.z(last) if last is not None else None
+            z = S.z(last) if (last is not None and S is not None) else None
             if z is None:
                 return None, 'independent solver: rank-deficient system for a set the run fitted', None
             e['z'] = z
+            e['zbk'] = lastbk
         events.append(e)
+    if S is None:
+        return None, 'no fit was made or fewer than 2*nord breakpoints left', None
     outmask = res['outmask']
     if outmask.shape != (n,) or outmask.dtype != bool:
         return None, None, {'exception': 'outmask has shape %r dtype %s' % (outmask.shape, outmask.dtype)}
@@ -624,13 +744,14 @@ def build_trace(P, perm, res, ref):
     xe = xe[(xe >= S.lo) & (xe <= S.hi)]
     if sset.nord == 1:                                     # piecewise constant: not evaluated ON a breakpoint (see above)
         xe = xe[~np.isin(xe, np.asarray(sset.breakpoints, dtype=float))]
-    want = S.curve(last, xe) if last is not None else None
-    if want is None:
+    solved = lastst == 0                                   # else: the last fit only dropped breakpoints, no curve is specified
+    want = S.curve(last, xe) if (last is not None and solved) else None
+    if want is None and solved:
         return None, 'independent solver: rank-deficient system for the last set fitted', None
     try:
         got = np.asarray(sset.value(xe)[0], dtype=float)
-        cdiff = scaled(got - want, P)
-        if 'forms' in P:
+        cdiff = scaled(got - want, P) if solved else 0
+        if 'forms' in P and solved:
             # evaluation points given as an integer array (the good data abscissae in the run's representation)
             xi = P['X'][P['W'] > 0]
             xi = xi[(xi >= S.lo) & (xi <= S.hi)]
@@ -641,14 +762,18 @@ def build_trace(P, perm, res, ref):
         cdiff = CLAMP
     pts = sorted(perm[c] for c in range(n) if outmask[c])
     rete = {'a': 'return', 'outmask': [c + 1 for c in range(n) if outmask[c]], 'cdiff': cdiff,
+            'cbk': lastbk, 'retbk': in_effect(sset),
             'hasref': ref is not None, 'refpts': ref['pts'] if ref else [], 'refcurve': ref['curve'] if ref else [],
             'pdiff': scaled(got - ref['got'], P) if ref and ref['got'].shape == got.shape else (CLAMP if ref else 0)}
     events.append(rete)
     tr = {'n': n, 'perm': list(perm), 'cpos': [c + 1 for c in range(n) if P['W'][perm[c] - 1] > 0],
           'lower': int(round(P['lower'] * MICRO)), 'upper': int(round(P['upper'] * MICRO)),
           'band': BAND,
-          'maxiter': P['maxiter'], 'mingood': max(P['nord'], 2), 'tol': TOL, 'outliers': P['outliers'], 'events': events}
+          'maxiter': P['maxiter'], 'mingood': max(P['nord'], 2), 'nbk': nbk, 'tol': TOL, 'outliers': P['outliers'], 'events': events}
+    sts = [e['st'] for e in ev if e['a'] == 'fit']
     info = {'pts': pts, 'curve': sorted(last) if last else [], 'got': got, 'cdiff': cdiff, 'form': form, 'nfit': sum(e['a'] == 'fit' for e in ev),
+            'ndrop': sts.count(-1), 'solved_after_drop': -1 in sts and 0 in sts[sts.index(-1):],
+            'late_drop': any(a == 0 and b == -1 for a, b in zip(sts, sts[1:])),
             'clobbered': res.get('clobbered', False)}
     return tr, None, info
 
@@ -658,6 +783,8 @@ def describe_problem(P, perm, form=None):
     kwtxt = {a: ('<%d values %g..%g>' % (len(v), v[0], v[-1]) if isinstance(v, list) else v) for a, v in P['kw'].items()}
     if P.get('holes') or P.get('ghosts'):
         kwtxt['empty segments'] = P.get('holes', 0) + P.get('ghosts', 0)
+    if P.get('gaps'):
+        kwtxt['gaps wider than the order'] = P['gaps']
     return 'n=%d nord=%d %s lower=%s upper=%s maxiter=%d outliers=%d nonpositive-weights=%d order=%s%s' % (
         P['X'].size, P['nord'], kwtxt, P['lower'], P['upper'], P['maxiter'], len(P['outliers']),
         int((P['W'] <= 0).sum()), kind, (' x.dtype=' + form) if form else '')
@@ -672,7 +799,8 @@ def short_events(events):
     out = []
     for e in events:
         if e['a'] == 'fit':
-            out.append('fit(%d pts)->%d' % (len(e['mask']), e['st']))
+            out.append('fit(%d pts, %d breakpoints)->%d%s' % (len(e['mask']), len(e.get('bk0', ())), e['st'], (
+                ' dropping %d' % (len(e['bk0']) - len(e['bk']))) if len(e.get('bk', ())) != len(e.get('bk0', ())) else ''))
         elif e['a'] == 'reject':
             out.append('reject(%d->%d, qdone=%s)' % (len(e['inm']), len(e['out']), e['qd']))
         else:
@@ -685,7 +813,7 @@ def case_of(P, perm, k=None, ref=None, form='float64'):
     return {'kind': 'trace', 'problem': {'X': P['X'].tolist(), 'Y': P['Y'].tolist(), 'W': P['W'].tolist(), 'nord': P['nord'],
                                          'kw': P['kw'], 'lower': P['lower'], 'upper': P['upper'], 'maxiter': P['maxiter'],
                                          'outliers': P['outliers'], 'id': P['id'], 'pixel': 'forms' in P,
-                                         'holes': P.get('holes', 0), 'ghosts': P.get('ghosts', 0)},
+                                         'holes': P.get('holes', 0), 'ghosts': P.get('ghosts', 0), 'gaps': P.get('gaps', 0)},
             'perm': list(perm), 'event': k, 'form': form, 'ref_perm': list(ref[0]) if ref else None,
             'ref_form': ref[1] if ref else None}
 
@@ -708,13 +836,17 @@ def judge_batch(ctx, bsp, batch, label, stats):
         ctx.evaluated(len(tr['events']), 'recorded-events')
         if info['nfit'] >= 2:
             ctx.nontriv(('refit', P['id'], tuple(perm[:8])))
+        if t not in bad and t not in unspec:
+            stats['drop_runs'] += int(info['solved_after_drop'])
+            stats['late_drop_runs'] += int(info['late_drop'])
+            stats['multi_drop_runs'] += int(info['ndrop'] >= 2)
         stats['maxcdiff'] = max(stats['maxcdiff'], info['cdiff'])
         if t in bad:
             k = bad[t]
             e = tr['events'][k] if k < len(tr['events']) else None
             brief = dict(e) if e else {}
             brief.pop('z', None)
-            for fld in ('mask', 'inm', 'out', 'outmask', 'refpts', 'refcurve'):
+            for fld in ('mask', 'inm', 'out', 'outmask', 'refpts', 'refcurve', 'bk0', 'bk', 'zbk', 'cbk', 'retbk'):
                 if fld in brief:
                     brief[fld] = '%d points' % len(brief[fld])
             dev = explained.get(t)
@@ -723,7 +855,8 @@ def judge_batch(ctx, bsp, batch, label, stats):
             if stats['refused_' + str(dev)] > MAXREPORT:
                 continue
             if e and e['a'] == 'return':
-                brief = {'a': 'return', 'outmask': brief['outmask'], 'cdiff': e['cdiff'], 'pdiff': e['pdiff']}
+                brief = {'a': 'return', 'outmask': brief['outmask'], 'cdiff': e['cdiff'], 'pdiff': e['pdiff'],
+                         'breakpoints': '%d in effect' % len(e['retbk'])}
             what = ('%srecorded run refused by Trace_IterFit at event %d %s after: %s [%s]' % (
                 '[deviation D-C10-1: loop stops after the first rejection] ' if dev else '', k, brief,
                 short_events(tr['events'][:k]) or 'nothing', describe_problem(P, perm, info['form'])))
@@ -744,13 +877,19 @@ def falsify(tr, kind, rng):
     ret = ev[-1]
     fits = [i for i, e in enumerate(ev) if e['a'] == 'fit']
     rejs = [i for i, e in enumerate(ev) if e['a'] == 'reject']
+    solved = bool(fits) and ev[fits[-1]]['st'] == 0        # else the last fit only dropped breakpoints: no curve is specified
     if kind == 'mask_bit':                                 # one bit of the returned mask flipped
         c = rng.randint(1, n)
         ret['outmask'] = sorted(set(ret['outmask']) ^ {c})
     elif kind == 'curve':                                  # returned curve beyond the tolerance
+        if not solved:
+            return None
         ret['cdiff'] = t['tol'] + 1 + rng.randint(0, 1000)
     elif kind == 'status':                                 # a fit reports "breakpoints dropped"
-        ev[rng.choice(fits)]['st'] = -1
+        cand = [i for i in fits if ev[i]['st'] == 0]
+        if not cand:
+            return None
+        ev[rng.choice(cand)]['st'] = -1
     elif kind == 'fit_set':                                # a fit was handed one point less
         e = ev[rng.choice(fits)]
         if len(e['mask']) < 2:
@@ -778,20 +917,45 @@ def falsify(tr, kind, rng):
         i, r = rng.choice(cand)
         ev[i]['out'] = sorted(set(ev[i]['out']) | {r})
     elif kind == 'other_order':                            # differs from the run of the same data in another order
-        if not ret['hasref']:
+        if not ret['hasref'] or not solved:
             return None
         ret['pdiff'] = t['tol'] + 1
     elif kind == 'early_return':                           # the last refit and its rejection pass are missing
         if len(fits) < 2:
             return None
         t['events'] = ev[:fits[-1]] + [ret]
+    elif kind == 'retbk':                                  # the returned object carries other breakpoints than the last fit left
+        b = set(ret['retbk'])
+        off = sorted(set(range(1, t['nbk'] + 1)) - b)
+        if off and rng.random() < 0.5:
+            b.add(rng.choice(off))
+        else:
+            b.discard(rng.choice(sorted(b)))
+        ret['retbk'] = sorted(b)
+    elif kind == 'silent_drop':                            # a fit reporting status 0 masked a breakpoint
+        e = ev[rng.choice(fits)]
+        if e['st'] != 0 or len(e['bk']) < 2:
+            return None
+        e['bk'] = sorted(set(e['bk']) - {rng.choice(e['bk'])})
+    elif kind == 'stale_oracle':                           # residuals judged on the breakpoints in effect BEFORE a drop
+        cand = [i for i in rejs if any(ev[j]['a'] == 'fit' and ev[j]['st'] == -1 for j in range(i))]
+        if not cand:
+            return None
+        i = rng.choice(cand)
+        ev[i]['zbk'] = list(next(ev[j]['bk0'] for j in range(i) if ev[j]['a'] == 'fit' and ev[j]['st'] == -1))
+    elif kind == 'refit_on_old_breakpoints':               # the fit after a drop was called with the dropped breakpoints back
+        cand = [i for a, i in zip(fits, fits[1:]) if ev[a]['st'] == -1]
+        if not cand:
+            return None
+        i = rng.choice(cand)
+        ev[i]['bk0'] = list(ev[fits[fits.index(i) - 1]]['bk0'])
     else:
         raise core.MachineryError('unknown falsification ' + kind)
     return t
 
 
 FALSIFICATIONS = ['mask_bit', 'curve', 'status', 'fit_set', 'qdone', 'reject_inlier', 'keep_outlier', 'other_order',
-                  'early_return']
+                  'early_return', 'retbk', 'silent_drop', 'stale_oracle', 'refit_on_old_breakpoints']
 
 
 def falsified_selftest(ctx, accepted, rng, count):
@@ -834,15 +998,17 @@ def falsified_selftest(ctx, accepted, rng, count):
 
 def run_traces(ctx, bsp):
     rng = random.Random(ctx.seed)
-    nprob = 50 if ctx.quick else 600
+    nprob = 60 if ctx.quick else 720
     per_batch = 30 if ctx.quick else 60
-    stats = {'maxcdiff': 0, 'skipped': {}, 'runs': 0, 'refused': 0, 'accepted': [], 'forms': {}}
+    stats = {'maxcdiff': 0, 'skipped': {}, 'runs': 0, 'refused': 0, 'accepted': [], 'forms': {},
+             'drop_runs': 0, 'late_drop_runs': 0, 'multi_drop_runs': 0}
     batch = []
     done = 0
     for k in range(nprob):
-        P = (make_pixel_problem(rng, k) if k % 10 in (2, 5, 8) else
-             make_hole_problem(rng, k) if k % 10 in (3, 7) else
-             make_sparse_problem(rng, k) if k % 10 in (1, 6, 9) else make_problem(rng, k, ctx.quick))
+        P = (make_gap_problem(rng, k) if k % 12 in (10, 11) else
+             make_pixel_problem(rng, k) if k % 12 in (2, 5, 8) else
+             make_hole_problem(rng, k) if k % 12 in (3, 7) else
+             make_sparse_problem(rng, k) if k % 12 in (1, 6, 9) else make_problem(rng, k, ctx.quick))
         ref = refperm = None
         left = []                                          # runs of this data set that left the domain: (perm, form, why)
         for j, perm in enumerate(caller_orders(rng, P['X'].size)):
@@ -895,7 +1061,14 @@ def run_traces(ctx, bsp):
         print('  (%d recorded runs refused in all, %d of them not explained by deviation D-C10-1; the first %d of either '
               'kind are reported)' % (stats['refused'], stats.get('refused_None', 0), MAXREPORT), flush=True)
     ctx.sample({'recorded_runs': stats['runs'], 'validated': done, 'refused': stats['refused'], 'out_of_domain_skipped': stats['skipped'],
-                'abscissa_representations': stats['forms'], 'max_curve_discrepancy_microsigma': stats['maxcdiff']}, limit=12)
+                'abscissa_representations': stats['forms'], 'max_curve_discrepancy_microsigma': stats['maxcdiff'],
+                'accepted_runs_solved_after_dropping_breakpoints': stats['drop_runs'],
+                'accepted_runs_dropping_after_a_rejection': stats['late_drop_runs'],
+                'accepted_runs_dropping_twice': stats['multi_drop_runs']}, limit=12)
+    ctx.cov['parts']['recorded_runs_solved_after_dropping_breakpoints'] = stats['drop_runs']
+    if not (ctx.violations or ctx.known_hits) and stats['drop_runs'] < (12 if ctx.quick else 150):
+        # vacuity guard: the reduced-breakpoint dimension must really have been exercised
+        raise core.MachineryError('only %d accepted recorded runs dropped breakpoints and solved on the reduced set' % stats['drop_runs'])
     falsified_selftest(ctx, stats['accepted'], random.Random(ctx.seed + 1), 120 if ctx.quick else 300)
     return stats
 
@@ -931,10 +1104,13 @@ def concretise(st, hole=False):
             z = None
             if i + 1 < len(hist) and hist[i + 1]['a'] == 'reject':
                 z = list(hist[i + 1]['z'])
-            script.append({'st': e['st'], 'mask': sorted(e['mask']), 'z': z})
+            script.append({'st': e['st'], 'mask': sorted(e['mask']), 'z': z, 'bk': sorted(e['bk'])})
     return {'n': n, 'perm': perm, 'x': x, 'y': y, 'w': w, 'lower': float(p['lower']), 'upper': float(p['upper']),
             'maxiter': p['maxiter'], 'script': script, 'nrej': sum(e['a'] == 'reject' for e in hist),
-            'xof': xof, 'hole': hole}
+            'xof': xof, 'hole': hole, 'nbk': p['nbk'],
+            # the problem's breakpoints 1..nbk are these entries of the object's breakpoint array: the two interior
+            # breakpoints of the nbkpts=4 set / the two end breakpoints of the nbkpts=2 set (order 2: one pad each side)
+            'bkat': [2, 3] if hole else [1, 2]}
 
 
 def run_scripted(bsp, c, form='float64'):
@@ -945,8 +1121,12 @@ def run_scripted(bsp, c, form='float64'):
 
     def oracle_fit(sset, xdata, ydata, invvar, x2=None):
         k = len(calls)
-        ent = c['script'][k] if k < len(c['script']) else {'st': 0, 'z': None}
+        ent = c['script'][k] if k < len(c['script']) else {'st': 0, 'z': None, 'bk': None}
         calls.append(k)
+        if ent['bk'] is not None:                          # the behaviour's fit leaves these breakpoints in effect
+            for j, at in enumerate(c['bkat']):
+                if (j + 1) not in ent['bk']:
+                    sset.mask[at] = False
         rk = {v: r + 1 for r, v in enumerate(c['xof'])}
         ranks = np.array([rk.get(float(v), 0) for v in np.asarray(xdata, dtype=float)], dtype=int)
         z = ent['z'] or [0] * n
@@ -971,12 +1151,16 @@ def run_scripted(bsp, c, form='float64'):
             outmask = np.asarray(outmask)
             obs['outmask'] = [i + 1 for i in range(n) if outmask.shape == (n,) and outmask[i]]
             obs['shape_ok'] = outmask.shape == (n,) and outmask.dtype == bool
+            m = np.asarray(sset.mask, dtype=bool)
+            obs['bk'] = sorted(j + 1 for j, at in enumerate(c['bkat']) if m[at])
+            obs['bk_other'] = bool(np.all(np.delete(m, c['bkat'])))
             cf = np.ravel(np.asarray(sset.coeff, dtype=float))
             code = int(cf[0]) if cf.size else -1
             obs['curve'] = [r for r in range(1, n + 1) if (code >> (r - 1)) & 1]
         except Exception as ex:
             obs['exc'] = '%s: %s' % (type(ex).__name__, str(ex)[:160])
     obs['fits'] = [(e['mask'], e['st'], e['args']) for e in rec.events if e['a'] == 'fit']
+    obs['fitbk'] = [sorted(j + 1 for j, at in enumerate(c['bkat']) if (at + 1) in e['bk0']) for e in rec.events if e['a'] == 'fit']
     obs['rejects'] = [(e['inm'], e['out'], e['qd']) for e in rec.events if e['a'] == 'reject']
     return obs
 
@@ -998,6 +1182,11 @@ def compare(st, c, obs):
         return 'returned mask True at caller positions %s, specified %s' % (obs['outmask'], want)
     if obs['curve'] != sorted(st['curveOf']):
         return 'returned curve is the fit to %s, specified %s' % (obs['curve'], sorted(st['curveOf']))
+    before = [list(range(1, c['nbk'] + 1))] + [e['bk'] for e in c['script'][:-1]]
+    if obs['fitbk'] != before:
+        return 'breakpoints in effect at the calls of bspline.fit %s, specified %s' % (obs['fitbk'], before)
+    if obs['bk'] != sorted(st['bk']) or not obs['bk_other']:
+        return 'returned object has breakpoints %s in effect, specified %s' % (obs['bk'], sorted(st['bk']))
     if c['maxiter'] > 0 and len(obs['rejects']) != c['nrej']:
         return '%d rejection passes, specified %d' % (len(obs['rejects']), c['nrej'])
     return None
@@ -1006,17 +1195,18 @@ def compare(st, c, obs):
 def plain_state(st):
     p = st['prob']
     return {'prob': {'n': p['n'], 'perm': list(p['perm']), 'cpos': sorted(p['cpos']), 'lower': p['lower'], 'upper': p['upper'],
-                     'band': p['band'], 'maxiter': p['maxiter'], 'mingood': p['mingood']},
-            'hist': [{'a': e['a'], 'mask': sorted(e['mask']), 'st': e['st'], 'z': list(e['z']), 'rej': sorted(e['rej'])}
-                     for e in st['hist']],
-            'work': sorted(st['work']), 'curveOf': sorted(st['curveOf']), 'outmask': sorted(st['outmask'])}
+                     'band': p['band'], 'maxiter': p['maxiter'], 'mingood': p['mingood'], 'nbk': p['nbk']},
+            'hist': [{'a': e['a'], 'mask': sorted(e['mask']), 'st': e['st'], 'z': list(e['z']), 'rej': sorted(e['rej']),
+                      'bk': sorted(e['bk'])} for e in st['hist']],
+            'work': sorted(st['work']), 'curveOf': sorted(st['curveOf']), 'outmask': sorted(st['outmask']), 'bk': sorted(st['bk'])}
 
 
 def state_from_plain(d):
     return {'prob': dict(d['prob'], cpos=frozenset(d['prob']['cpos']), perm=tuple(d['prob']['perm'])),
-            'hist': tuple({'a': e['a'], 'mask': frozenset(e['mask']), 'st': e['st'], 'z': tuple(e['z']), 'rej': frozenset(e['rej'])}
-                          for e in d['hist']),
-            'work': frozenset(d['work']), 'curveOf': frozenset(d['curveOf']), 'outmask': frozenset(d['outmask'])}
+            'hist': tuple({'a': e['a'], 'mask': frozenset(e['mask']), 'st': e['st'], 'z': tuple(e['z']), 'rej': frozenset(e['rej']),
+                           'bk': frozenset(e['bk'])} for e in d['hist']),
+            'work': frozenset(d['work']), 'curveOf': frozenset(d['curveOf']), 'outmask': frozenset(d['outmask']),
+            'bk': frozenset(d['bk'])}
 
 
 def describe_state(ps):
@@ -1024,7 +1214,7 @@ def describe_state(ps):
     steps = []
     for e in ps['hist']:
         if e['a'] == 'fit':
-            steps.append('fit%s->%d' % (e['mask'], e['st']))
+            steps.append('fit%s->%d%s' % (e['mask'], e['st'], (' leaving breakpoints %s' % e['bk']) if e['st'] == -1 else ''))
         else:
             steps.append('residuals%s reject%s' % (e['z'], e['rej']))
     return 'caller order %s, positive weights at positions %s, lower=%d upper=%d maxiter=%d; specified: %s; mask %s' % (
@@ -1111,18 +1301,20 @@ def run_mc(ctx, bsp, cfg, need=(), sample_every=1):
 def self_test(ctx):
     """The trace validation must bind: an honest synthetic run is accepted; a run that stops after a non-empty
     rejection, a run whose mask is not un-sorted and a resurrected point are refused."""
-    def tr(events, maxiter=2):
+    def tr(events, maxiter=2, outliers=(2,)):
         return {'n': 3, 'perm': [2, 3, 1], 'cpos': [1, 2, 3], 'lower': 5 * MICRO, 'upper': 5 * MICRO, 'band': BAND,
-                'maxiter': maxiter, 'mingood': 2, 'tol': TOL, 'outliers': [2], 'events': events}
+                'maxiter': maxiter, 'mingood': 2, 'nbk': 4, 'tol': TOL, 'outliers': list(outliers), 'events': events}
+    full, less = [1, 2, 3, 4], [1, 2, 4]
 
-    def fit(m):
-        return {'a': 'fit', 'mask': m, 'st': 0, 'args': True}
+    def fit(m, st=0, bk0=full, bk=None):
+        return {'a': 'fit', 'mask': m, 'st': st, 'args': True, 'bk0': bk0, 'bk': bk0 if bk is None else bk}
 
-    def rej(i, o, z):
-        return {'a': 'reject', 'inm': i, 'out': o, 'qd': i == o, 'z': z}
+    def rej(i, o, z, zbk=full):
+        return {'a': 'reject', 'inm': i, 'out': o, 'qd': i == o, 'z': z, 'zbk': zbk}
 
-    def ret(om, cd=0):
-        return {'a': 'return', 'outmask': om, 'cdiff': cd, 'hasref': False, 'refpts': [], 'refcurve': [], 'pdiff': 0}
+    def ret(om, cd=0, bk=full, cbk=None):
+        return {'a': 'return', 'outmask': om, 'cdiff': cd, 'hasref': False, 'refpts': [], 'refcurve': [], 'pdiff': 0,
+                'retbk': bk, 'cbk': bk if cbk is None else cbk}
     big = [0, 60 * MICRO, 0]
     good = tr([fit([1, 2, 3]), rej([1, 2, 3], [1, 3], big), fit([1, 3]), rej([1, 3], [1, 3], [0, 0, 0]), ret([2, 3])])
     early = tr([fit([1, 2, 3]), rej([1, 2, 3], [1, 3], big), ret([2, 3])])
@@ -1131,11 +1323,23 @@ def self_test(ctx):
     curve = tr([fit([1, 2, 3]), rej([1, 2, 3], [1, 3], big), fit([1, 3]), rej([1, 3], [1, 3], [0, 0, 0]), ret([2, 3], TOL + 1)])
     kept = tr([fit([1, 2, 3]), rej([1, 2, 3], [1, 2, 3], big), ret([1, 2, 3])])
     few = dict(tr([fit([1, 2]), ret([1, 3])]), cpos=[1, 3], mingood=3)       # 2 good points, order 3: not judged
+    # breakpoints: a fit drops breakpoint 3 (status -1), the next one solves on what is left
+    z0 = [0, 0, 0]
+    a3 = [1, 2, 3]
+    dropped = tr([fit(a3, -1, full, less), fit(a3, 0, less), rej(a3, a3, z0, less), ret(a3, 0, less)], outliers=())
+    stale = tr([fit(a3, -1, full, less), fit(a3, 0, less), rej(a3, a3, z0, full), ret(a3, 0, less)], outliers=())       # oracle on the old set
+    revived = tr([fit(a3, -1, full, less), fit(a3, 0, full), rej(a3, a3, z0, full), ret(a3, 0, full)], outliers=())      # dropped breakpoint back
+    silent = tr([fit(a3, 0, full, less), rej(a3, a3, z0, less), ret(a3, 0, less)], outliers=())                          # status 0 yet one dropped
+    nodrop = tr([fit(a3, -1, full, full), fit(a3, 0, full), rej(a3, a3, z0), ret(a3)], outliers=())                      # status -1, none dropped
+    other = tr([fit(a3, -1, full, less), fit(a3, 0, less), rej(a3, a3, z0, less), ret(a3, 0, full, less)], outliers=())  # object carries other breakpoints
+    oldcurve = tr([fit(a3, -1, full, less), fit(a3, 0, less), rej(a3, a3, z0, less), ret(a3, 0, less, full)], outliers=())  # curve compared on the old set
+    unsolved = tr([fit(a3, -1, full, less), ret(a3, TOL + 5, less)], maxiter=0, outliers=())                             # budget gone: curve not judged
     unspec = set()
-    bad = validate_traces(ctx, [good, early, unsorted, back, curve, kept, few], 'Trace_IterFit[self-test]', unspec=unspec)
-    if bad != {1: 2, 2: 4, 3: 3, 4: 4, 5: 1} or unspec != {6}:
-        raise core.MachineryError('Trace_IterFit self-test: expected traces 1..5 refused at events 2,4,3,4,1 and trace 6 '
-                                  'outside the statement, got %r %r' % (bad, unspec))
+    bad = validate_traces(ctx, [good, early, unsorted, back, curve, kept, few, dropped, stale, revived, silent, nodrop, other,
+                                oldcurve, unsolved], 'Trace_IterFit[self-test]', unspec=unspec)
+    if bad != {1: 2, 2: 4, 3: 3, 4: 4, 5: 1, 8: 2, 9: 1, 10: 0, 11: 0, 12: 3, 13: 3} or unspec != {6}:
+        raise core.MachineryError('Trace_IterFit self-test: expected traces 1..5 refused at events 2,4,3,4,1, trace 6 '
+                                  'outside the statement, 7 and 14 accepted, 8..13 refused at 2,1,0,0,3,3; got %r %r' % (bad, unspec))
     bad = validate_traces(ctx, [good, early], 'Trace_IterFit[self-test Dev]', dev='D-C10-1')
     if bad != {0: 2}:
         raise core.MachineryError('Trace_IterFit self-test (deviation D-C10-1): expected only the conforming run refused, got %r' % bad)
@@ -1154,9 +1358,14 @@ def run(ctx):
                        'recorded data, per 10 sets: 2 dense (>= 30 points per breakpoint interval, gap free), 3 sparse / irregular '
                        '(intervals holding exactly 1, 2 or 3 points next to dense ones, isolated points, everyn 2..4), 3 integer '
                        'pixel grids, 2 with sampling holes (1 .. nord-1 consecutive breakpoint segments holding no x value, or only '
-                       'non-positively weighted ones, between occupied segments; nbkpts / bkspace / explicit bkpt / placed); every '
-                       'fit stays determined; runs in which a fit reports a non-zero '
-                       'status or raises from maskpoints are outside C10 (C09) and are counted as skipped, not judged',
+                       'non-positively weighted ones, between occupied segments; nbkpts / bkspace / explicit bkpt / placed), '
+                       'and per 12 sets 2 more with data gaps WIDER than the order (no x values or only non-positive weights over '
+                       'nord..nord+3 segments, one or two gaps, optionally a discordant pair of points inside that supports the '
+                       'breakpoints until it is rejected): fits there drop breakpoints (status -1, once or twice, at the start or '
+                       'after a rejection) and the run is judged on the reduced breakpoint set - breakpoints in effect at every fit '
+                       'call / return, oracle and returned curve on the knots in effect, returned object carrying them (WHICH '
+                       'breakpoints are dropped is C09\'s; a run whose last fit only dropped has no specified curve); runs in which a '
+                       'fit fails outright (status -2) or raises from maskpoints are outside C10 (C09) and are skipped, not judged',
                        'integral abscissae (pixel indices; the ranks of every replayed TLC behaviour) are handed over as float64 / '
                        'int64 / int32 / int16 / uint8 arrays and the returned curve is also evaluated at integer-typed points: '
                        'the dtype is a representation, the expected outcome is the one for the values',
@@ -1170,7 +1379,9 @@ def run(ctx):
                        '(pc = "unspec"; order 1 with one point left is no data set to fit - iterfit then stops without fitting)',
                        'replayed behaviours use nord=2 and nbkpts=2 on consecutive integers or nbkpts=4 on abscissae with a hole '
                        '(an empty breakpoint segment); bspline.fit is the oracle there, so sampling geometry cannot change the '
-                       'specified outcome - defects of the numerical fit show in the recorded direction only',
+                       'specified outcome - defects of the numerical fit show in the recorded direction only; a behaviour\'s '
+                       'dropping fit masks the specified breakpoints of the object (2 droppable: the interior ones of nbkpts=4 / '
+                       'the end ones of nbkpts=2) and the breakpoints seen by every later fit and in the returned object are compared',
                        '2-D fits (x2), requiren, oldset, groupbadpix, grow are not exercised']
     import pydl.pydlutils.bspline as bsp
     self_test(ctx)
